@@ -378,7 +378,8 @@ func JSONGetItems(val *fastjson.Value, prop string) ItemCollection {
 			}
 		}
 	case fastjson.TypeObject:
-		if i := JSONGetItem(val, prop); i != nil {
+		// a single embedded object stands for a list of one
+		if i, _ := JSONLoadItem(val); i != nil {
 			it.Append(i)
 		}
 	case fastjson.TypeString:
